@@ -89,8 +89,13 @@ def make_rhs(hname, kind):
     return dof, f, jac, energy, mask, Jm, quad
 
 
-def one_step(M, f, jac, y, h, dtype, mask, via, implicit):
+def one_step(M, f, jac, y, h, dtype, mask, via, implicit, cache=None):
+    """one real step from state y.  With a cache dict the SAME integrator object serves every evaluation of the case
+    (the natural way to evaluate a one-step map at several states); without, a fresh object is built per evaluation."""
     de, I = _imports()
+    if cache is not None and "m" in cache:
+        new_dt, (dT, dY) = cache["m"](cache["rhs"], dtype(0), y, {}, dtype(h))
+        return dT, y + dY
     rhs = de.DiffRHS(f)
     if implicit:
         rhs.hook_jacobian_call(jac)
@@ -103,8 +108,12 @@ def one_step(M, f, jac, y, h, dtype, mask, via, implicit):
         a = de.OdeSystem(f, y0=y.copy(), t=(dtype(0), dtype(h)), dt=dtype(abs(h)))
         a.method = M
         a.set_kick_vars(mask)
+        if cache is not None:
+            cache["m"] = a.integrator; cache["rhs"] = a.equ_rhs; cache["sys"] = a
         new_dt, (dT, dY) = a.integrator(a.equ_rhs, dtype(0), y, {}, dtype(h))
         return dT, y + dY
+    if cache is not None:
+        cache["m"] = m; cache["rhs"] = rhs
     new_dt, (dT, dY) = m(rhs, dtype(0), y, {}, dtype(h))
     return dT, y + dY
 
@@ -127,6 +136,7 @@ def map_case(case):
     if quad:
         sts = sts[:1]
     worst = 0.0
+    cache = {} if case.get("reuse") else None
     for y0 in sts:
         y0 = y0.astype(dtype)
         try:
@@ -135,7 +145,7 @@ def map_case(case):
                 cols = []
                 for j in range(n):
                     e = np.zeros(n, dtype=dtype); e[j] = 1
-                    dT, y1 = one_step(M, f, jac, e, h, dtype, mask, case["via"], implicit)
+                    dT, y1 = one_step(M, f, jac, e, h, dtype, mask, case["via"], implicit, cache)
                     if dT != dtype(h):
                         raise StopIteration
                     cols.append(np.asarray(y1, dtype=LD))
@@ -146,8 +156,8 @@ def map_case(case):
                 cols = []
                 for j in range(n):
                     e = np.zeros(n, dtype=dtype); e[j] = d
-                    dTp, yp = one_step(M, f, jac, y0 + e, h, dtype, mask, case["via"], implicit)
-                    dTm, ym = one_step(M, f, jac, y0 - e, h, dtype, mask, case["via"], implicit)
+                    dTp, yp = one_step(M, f, jac, y0 + e, h, dtype, mask, case["via"], implicit, cache)
+                    dTm, ym = one_step(M, f, jac, y0 - e, h, dtype, mask, case["via"], implicit, cache)
                     if dTp != dtype(h) or dTm != dtype(h):
                         raise StopIteration
                     cols.append((np.asarray(yp, dtype=LD) - np.asarray(ym, dtype=LD)) / (2 * LD(d)))
@@ -164,7 +174,7 @@ def map_case(case):
             r.v("C10/symplectic/%s" % case["method"], "M^T J M = J for the one-step map", dict(case, y0=y0.astype(float)),
                 observed=dict(defect=defect, tol=tol), expected="<= tol")
             break
-    r.out(("map", case["method"], case["H"], case["layout"], case["via"], h > 0))
+    r.out(("map", case["method"], case["H"], case["layout"], case["via"], h > 0, bool(case.get("reuse"))))
     if case.get("sample"):
         r.samples.append(dict(section="map", case={k: v for k, v in case.items() if k != "sample"}, states=len(sts), worst_ratio=worst))
     return r
@@ -181,11 +191,12 @@ def reverse_case(case):
     dtype = np.float64 if implicit else LD
     dof, f, jac, energy, mask, Jm, quad = make_rhs(case["H"], case["layout"])
     h = case["h"]
+    cache = {} if case.get("reuse") else None
     for y0 in states(dof, True):
         y0 = y0.astype(dtype)
         try:
-            dT, y1 = one_step(M, f, jac, y0, h, dtype, mask, case["via"], implicit)
-            dT2, y2 = one_step(M, f, jac, y1, -h, dtype, mask, case["via"], implicit)
+            dT, y1 = one_step(M, f, jac, y0, h, dtype, mask, case["via"], implicit, cache)
+            dT2, y2 = one_step(M, f, jac, y1, -h, dtype, mask, case["via"], implicit, cache)
         except de.exception_types.FailedToMeetTolerances:
             r.n += 1; r.add("shortened_or_failed"); continue
         if dT != dtype(h) or dT2 != dtype(-h):
@@ -273,7 +284,7 @@ def run_case(case):
 
 def run(ctx):
     ctx.rule = ("6 symplectic-flagged methods x 5 separable Hamiltonians x state lattice x h in +-{0.5, 0.1, 0.01} x state layouts/kick masks "
-                "(default, constructor mask, set_kick_vars through OdeSystem, interleaved, swapped); Jacobian of the REAL one-step map "
+                "(default, constructor mask, set_kick_vars through OdeSystem, interleaved, swapped) x {fresh integrator per evaluation, ONE integrator object reused for all evaluations}; Jacobian of the REAL one-step map "
                 "(exact columns for quadratic H, central differences otherwise); reversibility for the symmetric schemes; 4096-step energy runs; table identities; "
                 "distinct = distinct (section, method, H, layout, via, sign) classes")
     ctx.assumptions += [
@@ -297,8 +308,11 @@ def run(ctx):
                         continue
                     k += 1
                     cases.append(dict(section="map", method=M.__name__, H=H, layout=lay, via=via, h=h, quick=ctx.quick, sample=(k % 41 == 0)))
+                    if not (implicit and ctx.quick and abs(h) != 0.1):
+                        cases.append(dict(section="map", method=M.__name__, H=H, layout=lay, via=via, h=h, quick=ctx.quick, reuse=True))
                     if M.__name__ in SYMMETRIC and via in ("default", "ctor"):
                         cases.append(dict(section="reverse", method=M.__name__, H=H, layout=lay, via=via, h=h))
+                        cases.append(dict(section="reverse", method=M.__name__, H=H, layout=lay, via=via, h=h, reuse=True))
         for H in ("harmonic", "pendulum") + (() if ctx.quick else ("henon",)):
             for h in (0.1, -0.1) + (() if ctx.quick else (0.25,)):
                 cases.append(dict(section="energy", method=M.__name__, H=H, h=h, steps=1024 if ctx.quick and implicit else 4096))
